@@ -463,12 +463,22 @@ pub fn c02(rep: &mut Report) {
         agg
     });
     rep.agg.merge(a);
+    // The prior output is a seed as well (`--seed-output`): all (prior layout, target) pairs of <= 4 chunks of sizes
+    // {1,2,3} through the real planner and executor - judged here by the final bytes only (the clause about chunks
+    // destroyed before they were copied is C03's).
+    {
+        let mut l0 = Agg::default();
+        c03_l0(4, 64, &mut l0);
+        l0.classes.retain(|k, _| k == "success-with-wrong-output" || k == "valid-clone-failed" || k.starts_with("panic"));
+        l0.samples.clear();
+        rep.agg.merge(l0);
+    }
     crate::clilegs::run(rep, crate::clilegs::Which::C02, false);
-    rep.set("evaluations", json!(rep.agg.get("scenarios") + rep.agg.get("cli_scenarios")));
+    rep.set("evaluations", json!(rep.agg.get("scenarios") + rep.agg.get("cli_scenarios") + rep.agg.get("l0_pairs")));
     rep.set("distinct_nontrivial", json!(rep.agg.distinct_count("outcomes")));
     rep.set("exhaustive", json!(true));
     rep.set("universes", lab.describe());
-    rep.set("rule", json!(format!("CLI leg: the real clone_cmd with --seed files for all sources of <= 2/3 words x seeds of <= 2/3 letters and seed pairs, local and HTTP archives; library leg: all sources of <= {} words (+ 7 longer sources with runs / separated repeats of a chunk) x all single seeds of <= {n} letters and all ordered seed pairs of <= 2 letters each (letters: source words, junk words, a half word, a size-colliding junk word) + empty seed set + seed = source, per universe and hash length 64/8/4; distinct_nontrivial = distinct (write log, fetch list) outcomes", if thorough { 4 } else { 3 })));
+    rep.set("rule", json!(format!("CLI leg: the real clone_cmd with --seed files for all sources of <= 2/3 words x seeds of <= 2/3 letters and seed pairs, local and HTTP archives; library leg: all sources of <= {} words (+ 7 longer sources with runs / separated repeats of a chunk) x all single seeds of <= {n} letters and all ordered seed pairs of <= 2 letters each (letters: source words, junk words, a half word, a size-colliding junk word) + empty seed set + seed = source, per universe and hash length 64/8/4; the output as its own seed: all (prior layout, target) pairs of <= 4 chunks of sizes 1-3 through the real planner and executor, judged by the final bytes; distinct_nontrivial = distinct (write log, fetch list) outcomes", if thorough { 4 } else { 3 })));
     rep.assume("A1: no truncated-hash collision inside a scenario");
 }
 
